@@ -1,11 +1,11 @@
 SPECIFICATION Spec
 CONSTANTS
-  Files = {"r", "a"}
+  Files = {"r", "a", "b"}
   Root = "r"
   MaxDepth = 8
-  FileSeq <- Seq2
-  MaxStmts = 3
-  GenKinds = {"use", "forward", "import", "loadcss"}
+  FileSeq <- Seq3
+  MaxStmts = 4
+  GenKinds = {"use", "forward"}
   GenSpellings = {"plain", "dot"}
   DevChoices <- DevIdeal
   MaxFaultAt = 0
